@@ -714,21 +714,28 @@ def _dispatch_log_or_error(
             wire_batch_logger.debug("Classify batch: zero-row, no log keys -> data")
         return False
 
-    level_str = level_bytes.decode()
-    message_str = message_bytes.decode()
+    # Everything below is peer-controlled.  Undecodable bytes, a level this client
+    # does not know, or a ``log_extra`` that is not a JSON object must never fail the
+    # caller's RPC: the message is delivered with what can be read, or ignored.
+    level_str = level_bytes.decode("utf-8", "replace")
+    message_str = message_bytes.decode("utf-8", "replace")
 
     # Extract extra info (traceback, exception_type, etc.)
     raw_extra_data: dict[str, object] = {}
     raw_extra = custom_metadata.get(LOG_EXTRA_KEY)
     if raw_extra is not None:
-        with contextlib.suppress(json.JSONDecodeError):
-            raw_extra_data = json.loads(raw_extra.decode())
+        # ValueError covers JSONDecodeError and the integer-digits limit.
+        with contextlib.suppress(ValueError, RecursionError):
+            parsed_extra = json.loads(raw_extra.decode("utf-8", "replace"))
+            # Only a JSON object carries extras; any other JSON value is ignored.
+            if isinstance(parsed_extra, dict):
+                raw_extra_data = parsed_extra
 
     # Extract request_id from batch metadata
     request_id_bytes = custom_metadata.get(REQUEST_ID_KEY)
     request_id = ""
     if request_id_bytes is not None:
-        request_id = request_id_bytes.decode()
+        request_id = request_id_bytes.decode("utf-8", "replace")
 
     if wire_batch_logger.isEnabledFor(logging.DEBUG):
         wire_batch_logger.debug(
@@ -753,15 +760,25 @@ def _dispatch_log_or_error(
         raise RpcError(error_type, message_str, traceback_str, request_id=request_id, error_kind=error_kind)
 
     # Non-exception log message → invoke callback
-    # Coerce all extra values to str for Message(**extra)
-    extra: dict[str, str] = {k: str(v) for k, v in raw_extra_data.items()}
+    try:
+        level = Level(level_str)
+    except ValueError:
+        # A level this client does not know (newer or foreign peer): ignore the message.
+        if wire_batch_logger.isEnabledFor(logging.DEBUG):
+            wire_batch_logger.debug("Classify batch: unknown log level %r -> ignored", level_str[:50])
+        return True
+    # Coerce all extra values to str
+    extra: dict[str, object] = {k: str(v) for k, v in raw_extra_data.items()}
     # Extract server_id from top-level metadata into extra
     server_id_bytes = custom_metadata.get(SERVER_ID_KEY)
     if server_id_bytes is not None:
-        extra["server_id"] = server_id_bytes.decode()
+        extra["server_id"] = server_id_bytes.decode("utf-8", "replace")
     if request_id:
         extra["request_id"] = request_id
-    msg = Message(Level(level_str), message_str, **extra)
+    # Attach the extras directly instead of passing them as **kwargs: a peer may
+    # name an extra ``level`` or ``message``, which are Message's own parameters.
+    msg = Message(level, message_str)
+    msg.extra = extra or None
     if on_log is not None:
         on_log(msg)
     return True
